@@ -14,8 +14,8 @@
     torn record, its recovery / table / manifest code, and the real-time bound of the timer (the timer is the
     event Tick in the model). *)
 From Coq Require Import List NArith ZArith Bool.
-From Verif Require Import Base.BStr Persist.Batch Persist.MapSpec Persist.LevelDb Persist.SerialDb Persist.MemDb Persist.ShardId
-  Persist.ShardedDb Persist.PersistSpec Persist.Crash Persist.Crash_proofs.
+From Verif Require Import Base.Generic Base.BStr Persist.Batch Persist.MapSpec Persist.LevelDb Persist.SerialDb Persist.MemDb Persist.ShardId
+  Persist.ShardedDb Persist.PersistSpec Persist.PersistComp Persist.CrashComp Persist.CrashComp_proofs Persist.Crash Persist.Crash_proofs.
 Import ListNotations.
 Open Scope Z_scope.
 
@@ -127,6 +127,22 @@ Example C10_nonvacuous :
         (2,1,1,2); (2,2,1,1); (2,2,1,1); (2,2,1,1); (2,2,1,1); (3,2,2,1); (3,3,2,2); (3,3,2,2); (3,3,2,2)]%nat.
 Proof. vm_compute. split; reflexivity. Qed.
 
+(** The tie for TORN crash images.  The harness reopens images whose unsynced tail was cut at a random byte and hands the recovered maps
+    to the model (op 9 of the crash component).  After any operation the driver's set of allowed maps is exactly
+    { recover (crash_drop n log) | crash point of that operation, n <= |log| } -- the states C10_crash_is_drop and the theorems above
+    speak about ... *)
+Theorem C10_judge_allowed_set : forall st code args, (1 <= code <= 6)%N ->
+  exists o, let tr := op_trace (cr_s st) o in
+    cr_s (fst (crash_step st code args)) = last tr (cr_s st) /\
+    forall m, In m (cr_allowed (fst (crash_step st code args))) <-> allowed_by (cr_s st :: tr) m.
+Proof. exact allowed_after_op. Qed.
+
+(** ... and its verdict is [true] exactly when every recovered map it was given is in that set *)
+Theorem C10_judge_verdict : forall st args v, In (1%N, v) (snd (crash_step st 9%N args)) ->
+  v = g_bool true <->
+  forall m, In m (map (fun m => psort (unpair (arg_L m))) (arg_L (nth_arg args 0))) -> In m (cr_allowed st).
+Proof. exact judge_verdict. Qed.
+
 Print Assumptions C10_flush_boundary.
 Print Assumptions C10_atomic_in_order.
 Print Assumptions C10_synced_survive.
@@ -136,3 +152,5 @@ Print Assumptions C10_counters.
 Print Assumptions C10_exposure.
 Print Assumptions C10_crash_is_drop.
 Print Assumptions C10_refines_persist_models.
+Print Assumptions C10_judge_allowed_set.
+Print Assumptions C10_judge_verdict.
